@@ -9,6 +9,7 @@ CONSTANTS
   Confs <- ConfsAll
   Stores <- StoresAll
   Ancs <- AncsTs
+  SrcPorts <- SrcPortsAll
   RestoreAtTop = TRUE
-CONSTRAINTS GenDeepAll GenStop
+CONSTRAINTS GenDeepAll GenStop PortsGen
 INVARIANTS EmitDeep
